@@ -1,10 +1,27 @@
 """Curated vocabulary of real instructions with architecturally known operand roles (C03 oracle).
 
-Each template: (format, reads, writes, flags_read, flags_written) where reads/writes list operand
-placeholders A, B, C (registers) and M (memory operand: its address registers are always read).
+Each template: (format, reads, writes, flags_written[, flags_read]) where reads/writes list operand
+placeholders A, B, C (registers) and M (memory operand: its address registers are always read);
+flags_written is False, True (= every status flag of the ISA) or a set of flag names, flags_read a set of
+flag names (Intel SDM / Arm ARM condition tables).
 The reference read-after-write relation is computed from these roles and the architectural register
-families only -- nothing from OSACA's ISA database or dependency code is used.
+families only -- nothing from OSACA's ISA database or dependency code is used.  Flags are separate
+architectural registers (CF, OF, SF, ZF, AF, PF on x86; N, Z, C, V on AArch64).
+
+`flag_exact` templates are the ones whose flag behaviour the vocabulary vouches for; kernels analysed WITH flag
+dependencies are drawn from these only (the x86 zeroing idioms `xor r,r` architecturally write the flags, but
+OSACA's ISA database carries no flag data for the logical instructions: observed, outside the vocabulary).
 """
+X86_FLAGS = frozenset(["CF", "OF", "SF", "ZF", "AF", "PF"])
+NOCF = X86_FLAGS - {"CF"}
+A64_FLAGS = frozenset(["N", "Z", "C", "V"])
+# x86 condition -> flags tested (SDM vol. 1, appendix B)
+X86_CC = {"b": "CF", "ae": "CF", "c": "CF", "nc": "CF", "e": "ZF", "ne": "ZF", "z": "ZF", "nz": "ZF", "be": "CF ZF", "a": "CF ZF",
+          "s": "SF", "ns": "SF", "o": "OF", "no": "OF", "l": "SF OF", "nl": "SF OF", "ge": "SF OF", "nge": "SF OF",
+          "le": "ZF SF OF", "nle": "ZF SF OF", "g": "ZF SF OF", "ng": "ZF SF OF", "p": "PF", "np": "PF"}
+# AArch64 condition -> flags tested (Arm ARM C1.2.4)
+A64_CC = {"eq": "Z", "ne": "Z", "cs": "C", "hs": "C", "cc": "C", "lo": "C", "mi": "N", "pl": "N", "vs": "V", "vc": "V",
+          "hi": "C Z", "ls": "C Z", "ge": "N V", "lt": "N V", "gt": "N V Z", "le": "N V Z"}
 
 # x86 AT&T: sources first, destination last
 X86 = [
@@ -12,7 +29,7 @@ X86 = [
     ("addq {A}, {B}", "AB", "B", True), ("subq {A}, {B}", "AB", "B", True), ("addl {A32}, {B32}", "AB", "B", True),
     ("movq {A}, {B}", "A", "B", False), ("movl {A32}, {B32}", "A", "B", False),
     ("addq ${I}, {B}", "B", "B", True), ("subq ${I}, {B}", "B", "B", True),
-    ("incq {B}", "B", "B", True), ("decq {B}", "B", "B", True),
+    ("incq {B}", "B", "B", NOCF), ("decq {B}", "B", "B", NOCF),          # inc/dec leave CF alone
     ("cmpq {A}, {B}", "AB", "", True), ("testq {A}, {B}", "AB", "", True),
     ("leaq {I}({A}), {B}", "A", "B", False),
     ("vaddpd {X}, {Y}, {Z}", "XY", "Z", False), ("vmulpd {X}, {Y}, {Z}", "XY", "Z", False), ("vsubpd {X}, {Y}, {Z}", "XY", "Z", False),
@@ -27,7 +44,12 @@ X86 = [
     ("vxorpd {X}, {X}, {X}", "", "X", False), ("xorl {A32}, {A32}", "", "A", True),
     ("pxor {X}, {X}", "", "X", False), ("xorps {X}, {X}", "", "X", False),
     ("vxorpd {X}, {Y}, {Z}", "XY", "Z", False),
+    # flag readers: cmovcc reads its condition's flags, the source and (merging) the destination; sbb reads CF
+    ("cmov{CC} {A}, {B}", "AB", "B", False, "CC"), ("cmov{CC} {A}, {B}", "AB", "B", False, "CC"),
+    ("cmov{CC} {I}({A}), {B}", "AB", "B", False, "CC"),
+    ("sbbq {A}, {B}", "AB", "B", True, {"CF"}),
 ]
+X86_NOT_FLAG_EXACT = ("xorl",)
 
 # AArch64: destination first
 A64 = [
@@ -43,20 +65,48 @@ A64 = [
     ("ldr {X}, [{A}], #{I}", "A", "XA", False), ("ldr {X}, [{A}, #{I}]!", "A", "XA", False),
     ("str {X}, [{A}], #{I}", "XA", "A", False), ("str {X}, [{A}, #{I}]!", "XA", "A", False),
     ("ldp {X}, {Y}, [{A}, #{I}]", "A", "XY", False), ("stp {X}, {Y}, [{A}, #{I}]", "XYA", "", False),
+    # flag readers / further writers
+    ("csel {A}, {B}, {C}, {CC}", "BC", "A", False, "CC"), ("cset {A}, {CC}", "", "A", False, "CC"),
+    ("csinc {A}, {B}, {C}, {CC}", "BC", "A", False, "CC"),
+    ("cmn {A}, {B}", "AB", "", True), ("tst {A}, {B}", "AB", "", True), ("ands {A}, {B}, {C}", "BC", "A", True),
 ]
 
 X86_FAMS = [["rax", "eax"], ["rbx", "ebx"], ["rcx", "ecx"], ["rdx", "edx"], ["rsi", "esi"], ["rdi", "edi"], ["rbp", "ebp"],
             ["r8", "r8d"], ["r9", "r9d"], ["r10", "r10d"]]
 
 
-def gen(rng, isa, n, npool=3):
-    """Returns (lines, roles) with roles[i] = (reads:set, writes:set) over architectural register ids and 'FLAGS'."""
+def _flag_sets(tpl, isa, rng):
+    """(format with the condition filled in, flags written, flags read) of one template"""
+    fmt, fw = tpl[0], tpl[3]
+    fr = tpl[4] if len(tpl) > 4 else ()
+    allf = X86_FLAGS if isa == "x86" else A64_FLAGS
+    if fw is True:
+        fw = allf
+    elif not fw:
+        fw = ()
+    if fr == "CC":
+        table = X86_CC if isa == "x86" else A64_CC
+        cc = rng.choice(sorted(table))
+        fmt = fmt.replace("{CC}", cc)
+        fr = table[cc].split()
+    return fmt, set(("F", f) for f in fw), set(("F", f) for f in fr)
+
+
+def gen(rng, isa, n, npool=3, flags=False):
+    """Returns (lines, roles) with roles[i] = (reads:set, writes:set) over architectural register ids; a flag is the
+    id ("F", name).  With `flags` (kernels analysed with flag dependencies) only flag-exact templates are drawn and
+    flag readers are drawn more often."""
     lines, roles = [], []
     if isa == "x86":
         gp = rng.sample(range(len(X86_FAMS)), npool)
         vp = rng.sample(range(16), npool)
+        pool = [t for t in X86 if not (flags and t[0].split()[0] in X86_NOT_FLAG_EXACT)]
+        if flags:
+            pool = pool + [t for t in pool if len(t) > 4 or t[3]] * 2
         for _ in range(n):
-            fmt, rd, wr, fw = rng.choice(X86)
+            tpl = rng.choice(pool)
+            rd, wr = tpl[1], tpl[2]
+            fmt, fws, frs = _flag_sets(tpl, isa, rng)
             b = {k: rng.choice(gp) for k in "AB"}
             v = {k: rng.choice(vp) for k in "XYZ"}
             # equal operands of sub/xor forms are dependency-breaking idioms: only the explicit idiom templates use them
@@ -74,17 +124,20 @@ def gen(rng, isa, n, npool=3):
                    "B32": "%" + X86_FAMS[b["B"]][1], "X": "%%%s%d" % (vec, v["X"]), "Y": "%%%s%d" % (vec, v["Y"]),
                    "Z": "%%%s%d" % (vec, v["Z"]), "I": str(rng.choice([8, 16, 64]))}
             lines.append(fmt.format(**sub))
-            ids = {"A": ("g", b["A"]), "B": ("g", b["B"]), "X": ("v", v["X"]), "Y": ("v", v["Y"]), "Z": ("v", v["Z"]), "F": "FLAGS"}
-            reads = {ids[c] for c in rd}
-            writes = {ids[c] for c in wr}
-            if fw:
-                writes.add("FLAGS")
+            ids = {"A": ("g", b["A"]), "B": ("g", b["B"]), "X": ("v", v["X"]), "Y": ("v", v["Y"]), "Z": ("v", v["Z"])}
+            reads = {ids[c] for c in rd} | frs
+            writes = {ids[c] for c in wr} | fws
             roles.append((reads, writes))
     else:
         gp = rng.sample(range(1, 12), npool)
         vp = rng.sample(range(16), npool)
+        pool = list(A64)
+        if flags:
+            pool = pool + [t for t in A64 if len(t) > 4 or t[3]] * 2
         for _ in range(n):
-            fmt, rd, wr, fw = rng.choice(A64)
+            tpl = rng.choice(pool)
+            rd, wr = tpl[1], tpl[2]
+            fmt, fws, frs = _flag_sets(tpl, isa, rng)
             b = {k: rng.choice(gp) for k in "ABC"}
             v = {k: rng.choice(vp) for k in "XYZW"}
             w = rng.choice(["x", "x", "w"]) if "[" not in fmt else "x"
@@ -95,11 +148,9 @@ def gen(rng, isa, n, npool=3):
                    "I": str(rng.choice([8, 16, 32]))}
             lines.append(fmt.format(**sub))
             ids = {"A": ("g", b["A"]), "B": ("g", b["B"]), "C": ("g", b["C"]), "X": ("v", v["X"]), "Y": ("v", v["Y"]),
-                   "Z": ("v", v["Z"]), "W": ("v", v["W"]), "F": "FLAGS"}
-            reads = {ids[c] for c in rd}
-            writes = {ids[c] for c in wr}
-            if fw:
-                writes.add("FLAGS")
+                   "Z": ("v", v["Z"]), "W": ("v", v["W"])}
+            reads = {ids[c] for c in rd} | frs
+            writes = {ids[c] for c in wr} | fws
             roles.append((reads, writes))
     return lines, roles
 
@@ -109,7 +160,7 @@ def reference_raw(roles, flags=False):
     out = set()
     for i, (_, wi) in enumerate(roles):
         for r in wi:
-            if r == "FLAGS" and not flags:
+            if r[0] == "F" and not flags:
                 continue
             for j in range(i + 1, len(roles)):
                 rj, wj = roles[j]
